@@ -442,7 +442,7 @@ structure Sys where
   started : Bool
   nodes : List NodeSt                 -- node i is nodes[i-1]
   owners : List (AuthId × Nat)        -- control-plane grant: authority id ↦ leader
-deriving Repr, Inhabited
+deriving DecidableEq, Repr, Inhabited
 
 def mkNodes : Nat → List NodeSt
   | 0 => []
